@@ -63,7 +63,10 @@ pub fn meta_map(m: u8) -> BTreeMap<String, Vec<u8>> {
             b.insert("a".to_string(), b"x".to_vec());
             b.insert("bb".to_string(), vec![1, 2, 3]);
         }
-        _ => {}
+        _ => {
+            // metadata far beyond the single-pass and in-place thresholds
+            b.insert("a".to_string(), vec![b'z'; 70_000]);
+        }
     }
     b
 }
